@@ -106,7 +106,7 @@ claim("C17", "DESIGN.md 5 C17",
       "UpdateDescription/UpdateUser refuse unsanitised input and carry the stored users, keys and the addressed user's password over; UpdateUser, DeleteUser, SetUserPassword and SetKeys write back the definition they read with only the addressed entry changed "
       "(every other user's presence and password, the wildcard user and the keys are equal to what was read: quantified over all user names).",
       "checkAdmin / checkAdminOrExplicitPassword / isAdminOrExplicitPassword / globalAdminMatch / checkGlobalAdminToken are verified too: true only for a configured server administrator whose password matches and who holds 'admin', "
-      "a token valid for the ROOT scope carrying 'admin' (only when no group is addressed), credentials to which the ADDRESSED group grants 'admin', or - only when a user is named, i.e. only for the password endpoint - the current password of that user of that group; "
+      "a token valid for the ROOT scope carrying 'admin' (only when no group is addressed), credentials to which the ADDRESSED group grants 'admin', or - only when a user is named, i.e. only for the password endpoint - the current password of that user of that group, PRESENTED in credentials that name that user (a request without credentials passed when the stored password was of the wildcard type: repaired); "
       "the credentials examined are those of the request; a refusal has answered 401, an acceptance has written nothing. "
       "Assumed (trusted contracts): apiCORS; readDescription/GetDescription return what the file holds; JSON encoding writes what it is given; net/http. "
       "Not decided: 404 vs 401 ordering, that JSON marshalling of UserDescription omits nothing else secret, the WHIP and public-groups endpoints; the composition across functions is by contract text (internal proof steps refer to call results), not one exported postcondition.")
